@@ -152,6 +152,13 @@ pub fn run(ctx: &Ctx) -> i32 {
     big.push((format!("l{} halt\n", "x".repeat(100_000)), false));
     big.push((format!("{}\n", "; é\n".repeat(50_000)), false));
     big.push((".blkw #-1\nhalt\n".into(), false));
+    // data directives with particular words where an operand belongs (the diagnostic names the
+    // token it found: every class of word must be printable there)
+    for data in [".fill xD800", ".fill xDFFF", ".fill #-8193", ".fill xFFFF", ".fill x0000", ".fill x0041", ".fill x000A", ".fill x001B", ".fill xFFFE", ".blkw 1", ".blkw x2", ".stringz \"\u{1D800}\"", ".stringz \"\u{FFFF}\"", ".stringz \"\\n\"", ".stringz \"\"", ".break"] {
+        for tmpl in ["add r0 r0 {}", "add r0 {} r1", "ld r1 {}", "lea r0 {}", "jmp {}", "trap {}", ".orig {}", "br {}", "ldr r0 r1 {}", "{} add r0 r0 r0", "not r0 {}", "jsr {}"] {
+            big.push((format!("{}\nhalt\n", tmpl.replace("{}", data)), false));
+        }
+    }
     // every statement shape right at the end of the 16-bit address space: n words of padding,
     // then one more statement (the line counter is about to wrap)
     for pad in ["xFFFC", "xFFFD", "xFFFE", "xFFFF"] {
